@@ -224,8 +224,9 @@ func main() {
 		Rule: "connection histories (nothing / CRLF only / partial head / garbage / 1-4 requests in separate writes, pipelined or split at random places / POST body / " +
 			"hijack with and without response / Concurrency and MaxConnsPerIP rejection) x ReduceMemoryUsage x {Serve, ServeConn} x {client closes, read timeout}; " +
 			"non-trivial = distinct (kind, hook sequence, flags)",
-		Corpus: corpus,
-		Gen:    gen,
-		Run:    run,
+		Corpus:   corpus,
+		Gen:      gen,
+		Run:      run,
+		ShardLen: 100,
 	})
 }
